@@ -152,13 +152,21 @@ func readField(r io.Reader) ([]byte, error) {
 
 	len := binary.BigEndian.Uint32(lenb[:])
 
-	fb := make([]byte, len)
-	_, err = io.ReadFull(r, fb)
+	// the announced length is not trusted for allocation: the buffer grows with the data actually read
+	var fb bytes.Buffer
+	n, err := io.CopyN(&fb, r, int64(len))
+	if err == io.EOF && n > 0 {
+		err = io.ErrUnexpectedEOF
+	}
 	if err != nil {
 		return nil, err
 	}
 
-	return fb, nil
+	if fb.Len() == 0 {
+		return []byte{}, nil
+	}
+
+	return fb.Bytes(), nil
 }
 
 func writeField(b []byte, w io.Writer) (n int, err error) {
